@@ -51,7 +51,7 @@ func c06r1(w *World, rr *RuleRun) {
 		site := e.Site
 		c := callInstrCommon(site)
 		addr, id, add := w.TS.Of(c.Args[1]), w.TS.Of(c.Args[2]), w.TS.Of(c.Args[3])
-		caller := enclosingNamed(e.Caller)
+		caller := w.rootOf(e.Caller)
 		// wire-message sites: id = SenderID(M), add = !M.ReadOnly of the same M
 		fromMsg := func(m *Term) (bool, string) {
 			if !(isCall(id, senderID) && len(id.Args) == 1 && termEq(id.Args[0], m)) {
@@ -116,7 +116,7 @@ func c06r1(w *World, rr *RuleRun) {
 		if !acc.Write {
 			continue
 		}
-		rr.At(w, acc.Ins, "node.lastGotResponse is written only by the matched-response update in processPacket", within(acc.Ins.Parent(), pp), "in "+shortFuncName(acc.Ins.Parent()))
+		rr.At(w, acc.Ins, "node.lastGotResponse is written only by the matched-response update in processPacket", w.withinUp(acc.Ins.Parent(), pp), "in "+shortFuncName(acc.Ins.Parent()))
 	}
 }
 
@@ -221,7 +221,7 @@ func c06r2(w *World, rr *RuleRun) {
 				continue // codec
 			}
 			n++
-			rr.At(w, ins, "reply field "+strings.ToLower(fn)+" is consumed only by TraversalQueryResult (which feeds the lookup frontier, not the table)", within(ins.Parent(), tqr), "read in "+shortFuncName(ins.Parent()))
+			rr.At(w, ins, "reply field "+strings.ToLower(fn)+" is consumed only by TraversalQueryResult (which feeds the lookup frontier, not the table)", w.withinUp(ins.Parent(), tqr), "read in "+shortFuncName(ins.Parent()))
 		}
 		if n == 0 {
 			rr.ObligeTrivial("krpc.Return."+fn, "reply field "+strings.ToLower(fn)+" has a consumer", "-", true, "no reader outside the codec")
